@@ -463,6 +463,13 @@ func (c *Conn) prepareDualStackServerHandshakeStart(ctx context.Context) (handsh
 		flight12: dtlsflight12.Flight0,
 		flight13: dtlsflight13.Flight0,
 		fsmState: dtlshandshake.StatePreparing,
+		// The ClientHello that decided the version is already in the handshake cache, and it
+		// was read without a state machine to tell. Wake the state machine for it, as the
+		// dual-stack client does for the server's answer: otherwise it sits in flight 0 until
+		// the client's retransmission timer brings another copy.
+		postSetup: func(ctx context.Context) {
+			c.primeHandshakeRecv(ctx)
+		},
 	}, nil
 }
 
